@@ -41,3 +41,88 @@ Definition committed_only (tr : list cev) : list cev :=
 Definition c04_model (ops : list cop) : list cev := committed_only (crun proc0 ops).
 Definition c04_corr_ok (c : list cop * list cev) : bool := list_eqb cev_eqb (c04_model (fst c)) (snd c).
 Definition c04_chk_ok (c : list cop * list cev) : bool := chk_C04 (snd c).
+
+(* ---------------- family kv ---------------- *)
+From Rosmar Require Import Json Crc Kv Store.
+
+Definition err_eq_dec : forall a b : err, {a = b} + {a <> b}. Proof. decide equality. Defined.
+Definition fopcode_eq_dec : forall a b : fopcode, {a = b} + {a <> b}. Proof. decide equality. Defined.
+Definition sspair_eq_dec : forall a b : string * string, {a = b} + {a <> b}.
+Proof. decide equality; apply string_dec. Defined.
+Definition resp_eq_dec : forall a b : resp, {a = b} + {a <> b}.
+Proof.
+  decide equality; try apply N.eq_dec; try apply string_dec; try apply bool_dec; try apply err_eq_dec;
+    try (apply list_eq_dec; apply sspair_eq_dec).
+  decide equality; apply string_dec.
+Defined.
+Definition fevent_eq_dec : forall a b : fevent, {a = b} + {a <> b}.
+Proof.
+  decide equality; try apply N.eq_dec; try apply string_dec; try apply bool_dec; try apply fopcode_eq_dec;
+    try (apply list_eq_dec; apply sspair_eq_dec).
+Defined.
+Definition obsrow_eq_dec : forall a b : obsrow, {a = b} + {a <> b}.
+Proof.
+  decide equality; try apply resp_eq_dec; try apply bool_dec.
+  decide equality; apply fevent_eq_dec.
+Defined.
+Definition snapshot_eq_dec : forall a b : snapshot, {a = b} + {a <> b}.
+Proof.
+  decide equality.
+  - apply list_eq_dec. decide equality; [apply N.eq_dec | apply string_dec].
+  - apply list_eq_dec. decide equality; [apply list_eq_dec; apply string_dec | apply string_dec].
+  - apply list_eq_dec. decide equality; [apply obsrow_eq_dec | apply sspair_eq_dec].
+  - apply list_eq_dec; apply string_dec.
+Defined.
+Definition ostep_eq_dec : forall a b : ostep, {a = b} + {a <> b}.
+Proof.
+  decide equality; [apply snapshot_eq_dec | apply list_eq_dec; apply fevent_eq_dec | apply resp_eq_dec].
+Defined.
+
+Definition kv_model (c : scase) : list ostep := srun c.
+
+Fixpoint first_diff {A} (dec : forall a b : A, {a = b} + {a <> b}) (i : N) (a b : list A) : option (N * option A * option A) :=
+  match a, b with
+  | [], [] => None
+  | x :: a', y :: b' => if dec x y then first_diff dec (i + 1) a' b' else Some (i, Some x, Some y)
+  | x :: _, [] => Some (i, Some x, None)
+  | [], y :: _ => Some (i, None, Some y)
+  end.
+
+Definition kv_corr_ok (c : scase * list ostep) : bool :=
+  match first_diff ostep_eq_dec 0 (srun (fst c)) (snd c) with None => true | Some _ => false end.
+
+(* for replay files: the first differing step, reduced to the parts that differ
+   (model value first, observed value second) *)
+Record kv_diff := mkKvDiff {
+  d_step : N;
+  d_resp : option (resp * resp);
+  d_live : option (list fevent * list fevent);
+  d_colls : option (list string * list string);
+  d_rows : list (string * string * option obsrow * option obsrow);
+  d_order : option (list (string * list string) * list (string * list string))
+}.
+
+Definition rows_diff (a b : list ((string * string) * obsrow)) : list (string * string * option obsrow * option obsrow) :=
+  let look k l := alookup (fun x y : string * string => if sspair_eq_dec x y then true else false) k l in
+  flat_map (fun e => match look (fst e) b with
+                     | Some o => if obsrow_eq_dec (snd e) o then [] else [(fst (fst e), snd (fst e), Some (snd e), Some o)]
+                     | None => [(fst (fst e), snd (fst e), Some (snd e), None)]
+                     end) a
+  ++ flat_map (fun e => match look (fst e) a with Some _ => [] | None => [(fst (fst e), snd (fst e), None, Some (snd e))] end) b.
+
+Definition kv_explain (c : scase * list ostep) : option kv_diff + string :=
+  match first_diff ostep_eq_dec 0 (srun (fst c)) (snd c) with
+  | None => inl None
+  | Some (i, Some m, Some o) =>
+      inl (Some (mkKvDiff i
+        (if resp_eq_dec (os_resp m) (os_resp o) then None else Some (os_resp m, os_resp o))
+        (if list_eq_dec fevent_eq_dec (os_live m) (os_live o) then None else Some (os_live m, os_live o))
+        (if list_eq_dec string_dec (sn_colls (os_snap m)) (sn_colls (os_snap o)) then None else Some (sn_colls (os_snap m), sn_colls (os_snap o)))
+        (rows_diff (sn_rows (os_snap m)) (sn_rows (os_snap o)))
+        (if snapshot_eq_dec (mkSnap [] [] (sn_order (os_snap m)) []) (mkSnap [] [] (sn_order (os_snap o)) []) then None
+         else Some (sn_order (os_snap m), sn_order (os_snap o)))))
+  | Some (i, _, None) => inr "the implementation trace is shorter than the model's (the run stopped early)"
+  | Some (i, None, _) => inr "the implementation trace is longer than the model's (extra feed events after the end?)"
+  end.
+
+Definition kv_chk_ok (c : scase * list ostep) : bool := true.  (* replaced by Trace.v checkers *)
